@@ -43,8 +43,16 @@ STEP_TIMEOUT = 20.0
 
 
 # ------------------------------------------------------------- encodings
+# model key id -> the key string really used.  '0' is the one key for which
+# the pinned `del db[key]` worked; 'log' / 'log.1' are a key and a key that
+# extends it with '.<something>' (the shape of rotated log names): their db
+# files share a prefix but are different files
+KEYNAMES = {0: '0', 1: 'log', 2: 'log.1'}
+KEYIDS = {v: k for k, v in KEYNAMES.items()}
+
+
 def keyname(k):
-    return str(k)
+    return KEYNAMES[k]
 
 
 def op_coq(op):
@@ -96,6 +104,8 @@ def hist_coq(events):
 # 0.0 would be ==-equal to 0 and is left out)
 PYVAL = {i: i for i in range(10)}
 PYVAL.update({10: '', 11: [], 12: False, 13: 'x', 14: [1]})
+BAD = 15                         # a value that cannot be pickled
+PYVAL[BAD] = lambda: 0
 FALSY = [0, 10, 11, 12]
 POOLS = [list(range(1, 10)), [0, 1, 2], [1, 2], FALSY + [5], [0, 3, 10, 13],
          list(range(0, 15))]
@@ -524,10 +534,7 @@ class Run:
         if t == 'rel':
             return {'C': L_RELC, 'G': L_RELG}.get(m[1], L_RELX)
         if t == 'open':
-            try:
-                return 100 + int(m[1])
-            except ValueError:
-                return 199
+            return 100 + KEYIDS.get(m[1], 99)
         return {'read': L_READ, 'write': L_WRITE, 'del': L_DEL,
                 'close': L_CLOSE}.get(t, 98)
 
@@ -796,6 +803,12 @@ FIXED_SEQ = [
     [('set', 1, 10), ('get', 1), ('unset', 1), ('get', 1)],
     [('bulk', [(1, 11), (2, 12)]), ('get', 1), ('get', 2), ('unset', 1),
      ('unset', 2), ('get', 1), ('get', 2)],
+    # a key and a key that extends it with '.1': unset of one must not touch
+    # the other (either way round)
+    [('set', 1, 5), ('set', 2, 6), ('unset', 1), ('get', 2), ('get', 1),
+     ('unset', 2), ('get', 2)],
+    [('bulk', [(2, 4), (1, 3)]), ('unset', 2), ('get', 1), ('unset', 1),
+     ('set', 2, 8), ('unset', 1), ('get', 2)],
     # writing the same value again after it was removed / replaced
     [('set', 1, 5), ('unset', 1), ('set', 1, 5), ('get', 1)],
     [('set', 1, 5), ('set', 1, 6), ('set', 1, 5), ('get', 1),
@@ -1201,6 +1214,79 @@ def park_probe(chk):
                 chk.coverage['distinct_nontrivial'] += 1
 
 
+def fault_probe(chk):
+    """ an operation that RAISES inside its critical section (set/bulk_set of
+    a value that cannot be pickled - the caller's fault, it may fail) must
+    leave nothing behind: while the faulty process is alive and idle between
+    two operations, a free-running process (real blocking) must complete its
+    operations promptly, and the register must be unaffected """
+    wait = 3.0
+    shapes = [
+        ([[('set', 1, 5), ('set', 1, BAD), ('get', 1)],
+          [('get', 1), ('set', 1, 7), ('get', 1)]], [1]),
+        ([[('bulk', [(1, 5), (2, 6)]), ('bulk', [(2, BAD)]), ('get', 2)],
+          [('get', 2), ('unset', 2), ('get', 1)]], [1, 2]),
+    ]
+    for progs, keys in shapes:
+        state = {'locks_still_held_by_idle_process': None,
+                 'other_process_blocked': None}
+
+        def script(run, state=state):
+            guard = 0
+            while not (run.pending[0][0] == 'inv' and run.pending[0][1] == 2):
+                if run.attempt(0) is None:
+                    return 'faulty-process-finished-early'
+                guard += 1
+                if guard > 400:
+                    return 'too-long'
+            state['locks_still_held_by_idle_process'] = sorted(
+                k for k, v in run.owner.items() if v == 0)
+            run.grant_only(1)
+            m = run.poll(1, wait)
+            state['other_process_blocked'] = m is None
+            if m is None:
+                return 'operation-blocks-after-failed-operation'
+            run.pending[1] = m
+            st = _finish_free(run, 1)
+            if st != 'ok':
+                return st
+            while not run.done(0):
+                run.attempt(0)
+                guard += 1
+                if guard > 800:
+                    return 'too-long'
+            return _finish_free(run, 1)
+
+        r = scheduled_run(chk, progs, None, 'fault-probe', script=script,
+                          free=(1,))
+        chk.coverage['evaluations'] += 1
+        chk.dist('fault_probes', 1)
+        info = {'programs': progs, 'mode': 'fault-probe (value 15 cannot be '
+                'pickled; process 1 free-running)',
+                'schedule': r.get('trace'), 'status': r['status'],
+                'probe': dict(state), 'errors': r.get('fail_texts'),
+                'crashes': r.get('crashes'), 'history': r.get('events')}
+        if r['status'] != 'ok' or r.get('crashes'):
+            if state['other_process_blocked']:
+                info['note'] = (
+                    f"process 1's first operation did not return within "
+                    f"{wait}s although process 0 was idle between two "
+                    "operations (its previous operation had raised)")
+            chk.violation(f"fault-probe {r['status']}", info, witness=True)
+            continue
+        ops = events_to_ops(r['events'])
+        bad = [o for o in ops if BAD in (
+            [o['op'][2]] if o['op'][0] == 'set' else
+            [v for _, v in o['op'][1]] if o['op'][0] == 'bulk' else [])]
+        if any(canon(o['r']) != [2] for o in bad):
+            chk.violation("fault-probe unpicklable-value-accepted", info,
+                          witness=False)
+            continue
+        rest = [o for o in ops if o not in bad]
+        if report_history(chk, 'fault-probe', info, rest, keys):
+            chk.coverage['distinct_nontrivial'] += 1
+
+
 CROSS_SCRIPT = r"""
 import sys, json, logging
 sys.path.insert(0, sys.argv[1])
@@ -1211,13 +1297,13 @@ out = []
 for op in json.loads(sys.argv[3]):
     try:
         if op[0] == 'set':
-            c.set(str(op[1]), op[2]); out.append([0])
+            c.set(op[1], op[2]); out.append([0])
         elif op[0] == 'unset':
-            c.unset(str(op[1])); out.append([0])
+            c.unset(op[1]); out.append([0])
         elif op[0] == 'bulk':
-            c.bulk_set({str(k): v for k, v in op[1]}); out.append([0])
+            c.bulk_set({k: v for k, v in op[1]}); out.append([0])
         else:
-            v = c.get(str(op[1]))
+            v = c.get(op[1])
             out.append([1] if v is None else
                        ([1, v] if type(v) is int else ['odd', repr(v)]))
     except BaseException as exc:
@@ -1240,6 +1326,10 @@ def cross_interpreter(chk):
                 ('get', 0), ('set', 1, 3)]),
         ('101', [('get', 2), ('get', 0), ('get', 1)]),
     ]
+    def named(o):
+        if o[0] == 'bulk':
+            return ['bulk', [[keyname(k), v] for k, v in o[1]]]
+        return [o[0], keyname(o[1])] + list(o[2:])
     root = tempfile.mkdtemp(prefix='c19x_', dir=chk.work)
     got, detail = [], []
     try:
@@ -1251,7 +1341,8 @@ def cross_interpreter(chk):
             try:
                 p = subprocess.run(
                     [sys.executable, '-c', CROSS_SCRIPT, vlib.REPO, root,
-                     json.dumps(prog)], env=env, timeout=60,
+                     json.dumps([named(o) for o in prog])], env=env,
+                    timeout=60,
                     stdout=subprocess.PIPE, stderr=subprocess.PIPE,
                     text=True, start_new_session=True)
                 rs = json.loads(p.stdout.strip().splitlines()[-1])
@@ -1359,6 +1450,8 @@ def run(chk):
         "and values vs the model's mrun, history vs python and Coq "
         "linearizability checkers (non-trivial = some process had to wait "
         "for a lock and >= 2 kinds of operation); commit probe; "
+        "fault probe (an operation raises inside its critical section, "
+        "the process stays alive, another process must not be blocked); "
         "park probe (writer held inside its critical section 1.6 s, reader "
         "free-running); cross-interpreter sequential run (subprocesses with "
         "different PYTHONHASHSEED); "
@@ -1369,6 +1462,7 @@ def run(chk):
     scheduled(chk)
     commit_probe(chk)
     park_probe(chk)
+    fault_probe(chk)
     cross_interpreter(chk)
     stress(chk)
     chk.assumptions += [
